@@ -1204,3 +1204,131 @@ def explore_c03(ctx, res, replay_ops=None):
 PROPS["C03"] = dict(lean=["ChfVerif.Props.C03"], explore=explore_c03,
                     trusted=["os.WriteFile/ReadFile; the harness reads the file the operation wrote and marshals ue.Records with the CHF's own parameters",
                              "that no record above 65535 octets is handed to dumpCdrFile is decided on the explored histories only (C03 partial)"])
+
+
+# ------------------------------------------------------------------ C18 / C19  (Diameter client: connections, late answers)
+
+PEER_TOL_MS = 900
+
+
+def _peer_run(ctx, res, replay_ops, n):
+    """every scenario in a process of its own (scenarios take seconds of real time), at most 16 at once"""
+    import concurrent.futures
+    ops = replay_ops if replay_ops is not None else core.harness_gen(ctx.harness, "peer", ctx.seed, n, ctx.tier, ())
+    with concurrent.futures.ThreadPoolExecutor(16) as ex:
+        impl = list(ex.map(lambda o: core.harness_run(ctx.harness, "peer", [o], timeout=900)[0], ops))
+    model = core.driver_run(ops)
+    return ops, impl, model
+
+
+def _peer_compare(res, op, im, mo):
+    """token-wise comparison of the implementation's observation with the model's prediction"""
+    it, mt = im.split(" "), mo.split(" ")
+    if len(it) != len(mt):
+        return "different number of observations"
+    for a, b in zip(it, mt):
+        if a[:2] != b[:2]:
+            return "observation kinds differ (%s / %s)" % (a, b)
+        if a.startswith("u="):
+            if a == "u=skipped" or b == "u=skipped":
+                if a != b:
+                    return "%s / %s" % (a, b)
+                continue
+            af, bf = a[2:].split(":"), b[2:].split(":")
+            # impl: status grant cost resDelta who ms done ; model: who ms done
+            if af[6] != bf[2]:
+                return "completion differs (impl done=%s, model done=%s)" % (af[6], bf[2])
+            if af[6] == "1":
+                if af[4] != bf[0]:
+                    return "the account-balance answer acted upon differs (impl %s, model %s)" % (af[4], bf[0])
+                if abs(int(af[5]) - int(bf[1])) > PEER_TOL_MS:
+                    return "elapsed time differs (impl %s ms, model %s ms)" % (af[5], bf[1])
+        elif a.startswith("n="):
+            if a != b:
+                return "%s / %s" % (a, b)
+        elif a.startswith("c="):
+            ac, bc = a[2:].split(":"), b[2:].split(":")
+            if ac[0] != bc[0]:
+                return "open connections differ (impl %s, model %s)" % (ac[0], bc[0])
+            if bc[1] == "0" and ac[1] != "0":
+                return "background tasks left behind (impl bucket %s, model 0)" % ac[1]
+    return None
+
+
+def _explore_peer(ctx, res, replay_ops, which):
+    ops, impl, model = _peer_run(ctx, res, replay_ops, n_for(ctx, 6, 40))
+    for op, im, mo in zip(ops, impl, model):
+        steps = op.split(" ")[3:]
+        res.evaluations += 1
+        kind = "count" if any(x.startswith("N") for x in steps) else "faults"
+        res.dist["scenario:" + kind] += 1
+        for x in steps:
+            if x[0] in "AR":
+                d = int(x[1:])
+                res.dist["%s-delay:%s" % (x[0], "prompt" if d < 5000 else "late" if d < 20000 else "lost")] += 1
+        if im.split(" ")[0] in ("crash", "panic", "timeout", "create-failed", "bad-op"):
+            res.violation("oracle", "%s: scenario did not run (%s)" % (which, im[:100]), [op, "# impl: " + im[:300]])
+            continue
+        res.traces_validated += 1
+        if len(res.samples) < 6:
+            res.sample({"op": " ".join(steps), "impl": im, "model": mo})
+        # --- oracles (the property itself, on the implementation's observation)
+        bad = None
+        for tok in im.split(" "):
+            if which == "C19" and tok.startswith("u=") and tok != "u=skipped":
+                f = tok[2:].split(":")
+                if f[6] != "1":
+                    bad = "an update did not complete within 14 s after a late or lost answer (subscriber blocked)"
+                elif f[4] not in ("own", "0"):
+                    bad = "an update acted upon the answer to account-balance request %s, not its own" % f[4]
+            if which == "C19" and tok.startswith("n=") and tok.endswith(":0"):
+                bad = "an update did not complete"
+            if which == "C18" and tok.startswith("c="):
+                f = tok[2:].split(":")
+                if int(f[0]) > 4 or f[1] != "0":
+                    bad = "connections / background tasks left behind after completed requests: %s established, goroutine bucket %s" % (f[0], f[1])
+            if which == "C18" and tok.startswith("n=") and tok.endswith(":0"):
+                bad = "an update did not complete"
+        if bad:
+            res.violation("oracle", "%s: %s" % (which, bad), [op, "# impl: " + im])
+        if (which == "C19" and kind == "faults") or (which == "C18"):
+            res.nontrivial.add(op)
+        # --- correspondence with the client machines
+        diff = _peer_compare(res, op, im, mo)
+        if diff:
+            res.disagreements += 1
+            res.violation("correspondence", "peer: model and implementation differ: " + diff, [op, "# impl:  " + im, "# model: " + mo],
+                          found_input=bool(bad))
+    res.rule = ("scripted scenarios against the real rating and account-balance servers over loopback TLS, whose answers are delayed by "
+                "sleeps in the store look-up they make: 10/100 (thorough 1000) prompt online updates followed by a count of established "
+                "connections to the peers' ports (/proc/self/net/tcp) and of goroutines; account-balance and rating answers delayed beyond "
+                "the 5 s timeout (6.5 s) or lost (40 s), followed at once / after 3 s / with a 2.5 s answer by further updates; random "
+                "patterns of prompt / 0.8 s / 2.5 s / late / lost answers. Every update must complete within 14 s and act only on the "
+                "answer to its own account-balance request (identified by the amount: each request tops up by a distinct sum of powers "
+                "of two); observations are compared with the client machines of Model/DiamClient.lean (who answered, elapsed time within "
+                "%d ms, open connections)" % PEER_TOL_MS)
+    res.assumptions.append("answers racing the timer within a few milliseconds are covered by the model's adversarial scheduler and the regenerated source facts, not by these timed runs")
+
+
+def explore_c18(ctx, res, replay_ops=None):
+    _explore_peer(ctx, res, replay_ops, "C18")
+
+
+def explore_c19(ctx, res, replay_ops=None):
+    _explore_peer(ctx, res, replay_ops, "C19")
+    if replay_ops is None and not getattr(ctx, "lean_ok", True) and not [v for v in res.violations if v["found_input"]]:
+        # the proof obligations broke (source facts changed) and the timed scenarios found nothing: search the
+        # window around the timeout for a run in which a later request hangs or takes a foreign answer
+        ops = []
+        for rep in range(4):
+            for d in range(4984, 5006):
+                ops.append("peer scen %s A%d U100 W300 U228 C" % (("imsi-20893990%d%04d" % (rep, d)).encode().hex(), d))
+        log("C19: searching %d schedules around the timeout for a failing run" % len(ops))
+        _explore_peer(ctx, res, ops, "C19")
+
+
+_peer_trust = ["go-diameter (state machine, mux locking, connection teardown) is modelled from reading its source, not verified",
+               "the go/ast fact extractor harness/cmd/diamclient.go (defer conn.Close, channel made per request, select-default send)",
+               "real-time scenarios: delays keep 1.5 s clear of the 5 s timeout; the exact race is the model's business"]
+PROPS["C18"] = dict(lean=["ChfVerif.Props.C18"], explore=explore_c18, gen=[gen_table("diamclient", "DiamClient.lean")], trusted=_peer_trust)
+PROPS["C19"] = dict(lean=["ChfVerif.Props.C19"], explore=explore_c19, gen=[gen_table("diamclient", "DiamClient.lean")], trusted=_peer_trust)
